@@ -421,7 +421,9 @@ def forward_single_defs(body, enums):
                         written = _written_names(rest, values_only=addr)
                         if d.get("id") in written:
                             continue
-                        dep = {x["referencedDecl"].get("id") for x in walk(init[0]) if x.get("kind") == "DeclRefExpr" and x["referencedDecl"].get("kind") in ("VarDecl", "ParmVarDecl")}
+                        # (the operand of sizeof is not evaluated: what it names may be written freely)
+                        unevaluated = {id(y) for x in walk(init[0]) if x.get("kind") == "UnaryExprOrTypeTraitExpr" for y in walk(x)}
+                        dep = {x["referencedDecl"].get("id") for x in walk(init[0]) if x.get("kind") == "DeclRefExpr" and id(x) not in unevaluated and x["referencedDecl"].get("kind") in ("VarDecl", "ParmVarDecl")}
                         if dep & written:
                             continue
                         items[i + 1:] = subst_refs(items[i + 1:], {d.get("id"): init[0]})
@@ -793,6 +795,19 @@ class CFG:
             return []
         if k == "ReturnStmt":
             inner = [c for c in s.get("inner", []) or [] if isinstance(c, dict)]
+            if inner:
+                # `return helper(args);` with a helper the rules do not know: its body in place, each of its returns
+                # being a return of this function (the tail of a function moved into a worker)
+                tail_body = self.inline_body(inner[0])
+                if tail_body is not None and getattr(self, "_tail_depth", 0) < 2:
+                    self._tail_depth = getattr(self, "_tail_depth", 0) + 1
+                    try:
+                        rest = self.stmt(tail_body, preds, None, None)
+                    finally:
+                        self._tail_depth -= 1
+                    if rest:
+                        raise Unsupported("helper %s can fall off its end" % callee_name(strip(inner[0])))
+                    return []
             if inner:
                 top = strip(inner[0])
                 if (top.get("kind") == "BinaryOperator" and top.get("opcode") in ("&&", "||")) or \
